@@ -377,8 +377,42 @@ fn events_file_leg(out: &mut EnumOut) {
 		metadata: Default::default(),
 	};
 	let batches = [vec![ev("/w/first-batch/a-rather-long-name.txt"), ev("/w/first-batch/b.txt")], vec![ev("/w/second.txt")], vec![]];
-	let target = RotatingTempFile::default();
 	let mut cases = 0u64;
+	// a healthy sequence first: five batches through one rotating file (what an earlier batch
+	// left behind must never show up in a later hand-over)
+	{
+		let hdir = scratch.path().join("tmp-h");
+		let _ = std::fs::create_dir_all(&hdir);
+		std::env::set_var("WATCHEXEC_TMPDIR", &hdir);
+		let target = RotatingTempFile::default();
+		let seq = [
+			vec![ev("/w/one/alpha.txt")],
+			vec![ev("/w/two/bravo-with-a-longer-name.txt"), ev("/w/two/b2.txt")],
+			vec![ev("/w/three/charlie.txt")],
+			vec![],
+			vec![ev("/w/five/echo.txt")],
+		];
+		for (i, b) in seq.iter().enumerate() {
+			cases += 1;
+			out.states += 1;
+			out.evaluations += 1;
+			let Ok(want) = events_to_simple_format(b) else { continue };
+			match emits_to_file(&target, b) {
+				Err(e) => out.violate("C17/events-file/hand-over-failed", format!("batch {i} of a healthy sequence: {e}"), json!({"kind": "events-file"})),
+				Ok(path) => match std::fs::read(&path) {
+					Ok(bytes) if bytes == want.as_bytes() => {}
+					Ok(bytes) => out.violate(
+						format!("C17/events-file/content-differs/batch-{}-of-a-sequence", i + 1),
+						format!("batch {} of a sequence through one events file: {} holds {:?}, the batch's line format is {want:?}", i + 1, path.display(), String::from_utf8_lossy(&bytes)),
+						json!({"kind": "events-file"}),
+					),
+					Err(e) => out.violate("C17/events-file/unreadable", format!("batch {i}: {}: {e}", path.display()), json!({"kind": "events-file"})),
+				},
+			}
+		}
+		std::env::set_var("WATCHEXEC_TMPDIR", &dir);
+	}
+	let target = RotatingTempFile::default();
 	for (i, b) in batches.iter().enumerate() {
 		if i == 1 {
 			// from now on no new temporary file can be created
